@@ -268,6 +268,22 @@ type symEval struct {
 	opaque map[string]bool // callees kept as uninterpreted functions
 	steps  int
 	errNil bool // error results of opaque calls are taken to be nil (the success path is interpreted)
+	// onIndex, when set, is told about every evaluation of an index expression: the index value and the length of
+	// the indexed array / slice when it is a constant of this evaluation (n < 0: unknown)
+	onIndex func(ix *ast.IndexExpr, idx sval, n int)
+}
+
+// seqLen: the number of elements of an array / array-backed slice / slice with a constant length; -1 if unknown.
+func (se *symEval) seqLen(v sval) int {
+	switch {
+	case v.arr != nil:
+		return len(v.arr.elems) - v.aoff
+	case v.kind == 's' && v.slen != nil:
+		if sl := se.residue(v.slen); sl.isConst() {
+			return int(sl.k)
+		}
+	}
+	return -1
 }
 
 type symLoop struct {
@@ -455,6 +471,9 @@ func (se *symEval) assignTo(fi *FuncInfo, lhs ast.Expr, v sval) {
 	if ix, isIx := ast.Unparen(lhs).(*ast.IndexExpr); isIx {
 		base := se.eval(fi, ix.X)
 		idx := se.eval(fi, ix.Index)
+		if se.onIndex != nil {
+			se.onIndex(ix, idx, se.seqLen(base))
+		}
 		if base.arr != nil && idx.kind == 'i' && idx.t.isConst() && v.kind == 'i' {
 			k := int(idx.t.k) + base.aoff
 			if k >= 0 && k < len(base.arr.elems) {
@@ -502,8 +521,8 @@ func (se *symEval) execStmt(fi *FuncInfo, s ast.Stmt) (flow, []sval) {
 		return se.execBlock(fi, x.List)
 	case *ast.DeclStmt:
 		gd, ok := x.Decl.(*ast.GenDecl)
-		if !ok {
-			return flNormal, nil
+		if !ok || gd.Tok == token.CONST || gd.Tok == token.TYPE {
+			return flNormal, nil // constants are folded by the type checker wherever they are used
 		}
 		for _, sp := range gd.Specs {
 			vs, ok := sp.(*ast.ValueSpec)
@@ -974,8 +993,23 @@ func (se *symEval) eval(fi *FuncInfo, e ast.Expr) sval {
 		}
 		return sval{kind: 'u'}
 	case *ast.IndexExpr:
+		// a byte of a string (a digit table): an opaque value; only the index matters
+		if bt, isB := info.TypeOf(x.X).Underlying().(*types.Basic); isB && bt.Info()&types.IsString != 0 {
+			idx := se.eval(fi, x.Index)
+			n := -1
+			if tv, has := info.Types[x.X]; has && tv.Value != nil && tv.Value.Kind() == constant.String {
+				n = len(constant.StringVal(tv.Value))
+			}
+			if se.onIndex != nil {
+				se.onIndex(x, idx, n)
+			}
+			return sval{kind: 'i', t: se.newSym("strbyte"), typ: types.Typ[types.Uint8]}
+		}
 		base := se.eval(fi, x.X)
 		idx := se.eval(fi, x.Index)
+		if se.onIndex != nil {
+			se.onIndex(x, idx, se.seqLen(base))
+		}
 		if base.arr != nil && idx.kind == 'i' && idx.t.isConst() {
 			k := int(idx.t.k) + base.aoff
 			if k >= 0 && k < len(base.arr.elems) {
@@ -1152,6 +1186,15 @@ func (se *symEval) binop(n ast.Node, op token.Token, l, r sval, resT types.Type)
 		t = mk("shl", l.t, r.t)
 	case token.SHR:
 		_, uns, _ := se.width(l.typ)
+		// the high bits of a symbol whose masked value is declared: sym >> k with sym & (ones<<k) known
+		if wb, _, okW := se.width(l.typ); okW && uns && l.t.op == "sym" && r.t.isConst() && r.t.k < uint64(wb) && wb <= 16 {
+			if m, ok := se.attrs[l.t.name]; ok {
+				mask := ((uint64(1) << uint(wb)) - 1) &^ ((uint64(1) << r.t.k) - 1)
+				if v, ok := m[mask]; ok {
+					return se.intVal(tConst(v>>r.t.k), resT)
+				}
+			}
+		}
 		if uns {
 			t = mk("lshr", l.t, r.t)
 		} else {
@@ -1207,8 +1250,26 @@ func (se *symEval) call(fi *FuncInfo, c *ast.CallExpr) []sval {
 	info := fi.Pkg.TypesInfo
 	name := calleeName(info, c)
 	switch name {
+	case "builtin.make":
+		// make([]T, n) with n a small constant of this evaluation and T an integer type: a tracked zeroed buffer
+		if len(c.Args) >= 2 {
+			if sl, isSl := info.TypeOf(c).Underlying().(*types.Slice); isSl {
+				if _, _, isInt := se.width(sl.Elem()); isInt {
+					if nv := se.eval(fi, c.Args[1]); nv.kind == 'i' && nv.t.isConst() && nv.t.k <= 4096 {
+						a := &arrVal{elemT: sl.Elem()}
+						for i := uint64(0); i < nv.t.k; i++ {
+							a.elems = append(a.elems, se.intVal(tConst(0), sl.Elem()))
+						}
+						return []sval{{kind: 's', arr: a, typ: info.TypeOf(c)}}
+					}
+				}
+			}
+		}
 	case "builtin.len":
 		v := se.eval(fi, c.Args[0])
+		if v.arr != nil {
+			return []sval{{kind: 'i', t: tConst(uint64(len(v.arr.elems) - v.aoff)), typ: types.Typ[types.Int]}}
+		}
 		if v.kind == 's' && v.slen != nil {
 			return []sval{{kind: 'i', t: se.residue(v.slen), typ: types.Typ[types.Int]}}
 		}
